@@ -181,3 +181,130 @@ theorem read_capability (T : Tables) (audit deny : Bool) (names : List Text)
     (rw [show (['c', 'a', 'p', 'a', 'b', 'i', 'l', 'i', 't', 'y'] : Text) = S "capability" from rfl, readBody_capability]; simp; intro x hx; simpa using hm x hx)
 
 end Ref
+
+namespace Ref
+open Aa
+
+/-! ### file rules: any path, any permission string -/
+
+/-- a path word: starts with `/` or `@` -/
+def PathHead (p : Text) : Prop := ∃ c cs, p = c :: cs ∧ (c = '/' ∨ c = '@')
+
+def fileRule (audit deny owner : Bool) (p : Text) (acc : List Text) : Rule :=
+  { kind := "file", audit := audit, accessType := if deny then S "deny" else [],
+    flds := [.b owner, .s p, .l acc, .s []] }
+
+def fileWords (audit deny owner : Bool) : List Text :=
+  qualWords audit deny ++ (if owner then [S "owner"] else [])
+
+theorem render_file (audit deny owner : Bool) (p : Text) (acc : List Text) :
+    renderRule (fileRule audit deny owner p acc) (padOf []) =
+      joinB (fileWords audit deny owner ++ [p, acc.flatten]) ++ [','] := by
+  cases audit <;> cases deny <;> cases owner <;>
+    simp [renderRule, fileRule, renderQual, renderComment, padOf, qualWords, fileWords, fL, fS, fB, Rule.fld, Fld.list,
+      Fld.str, Fld.bool, S, joinB, withS]
+
+theorem ne_kw_of_pathHead {p : Text} (h : PathHead p) (k : String)
+    (hk : ∀ c, k.toList.head? = some c → c ≠ '/' ∧ c ≠ '@') (hne : k.toList ≠ []) : (p == S k) = false := by
+  obtain ⟨c, cs, rfl, hc⟩ := h
+  cases hkl : k.toList with
+  | nil => exact absurd hkl hne
+  | cons d ds =>
+    have := hk d (by simp [hkl])
+    simp only [S, hkl, beq_eq_false_iff_ne, ne_eq, List.cons.injEq, not_and]
+    intro e
+    rcases hc with rfl | rfl
+    · exact absurd e.symm this.1
+    · exact absurd e.symm this.2
+
+end Ref
+
+namespace Ref
+open Aa
+
+theorem readBody_file (T : Tables) (q : Q) (p m : Text) (hp : PathHead p) (hpt : isPathTok p = true) :
+    readBody T q [p, m] = (readMode T m).map (fun a => mkR "file" q [.b q.owner, .s p, .l a, .s []]) := by
+  have k1 := ne_kw_of_pathHead hp "capability" (by decide) (by decide)
+  have k2 := ne_kw_of_pathHead hp "network" (by decide) (by decide)
+  have k3 := ne_kw_of_pathHead hp "signal" (by decide) (by decide)
+  have k4 := ne_kw_of_pathHead hp "ptrace" (by decide) (by decide)
+  have k5 := ne_kw_of_pathHead hp "set" (by decide) (by decide)
+  have k6 := ne_kw_of_pathHead hp "change_profile" (by decide) (by decide)
+  have k7 := ne_kw_of_pathHead hp "link" (by decide) (by decide)
+  unfold readBody
+  simp only [k1, k2, k3, k4, k5, k6, k7, Bool.false_eq_true, if_false, Bool.or_self, hpt, if_true]
+
+theorem readQual_stop (q : Q) (p : Text) (rest : List Text) (hp : PathHead p) (f : Nat) :
+    readQual (f + 1) q (p :: rest) = some (q, p :: rest) := by
+  have k1 := ne_kw_of_pathHead hp "audit" (by decide) (by decide)
+  have k2 := ne_kw_of_pathHead hp "deny" (by decide) (by decide)
+  have k3 := ne_kw_of_pathHead hp "allow" (by decide) (by decide)
+  have k4 := ne_kw_of_pathHead hp "owner" (by decide) (by decide)
+  simp [readQual, k1, k2, k3, k4]
+
+theorem readQual_audit (f : Nat) (r : List Text) :
+    readQual (f + 1) {} (S "audit" :: r) = readQual f { audit := true } r := by
+  rw [readQual]; simp [S]
+
+theorem readQual_deny (f : Nat) (a : Bool) (r : List Text) :
+    readQual (f + 1) { audit := a } (S "deny" :: r) = readQual f { audit := a, deny := true } r := by
+  rw [readQual]; cases a <;> simp [S]
+
+theorem readQual_owner (f : Nat) (a d : Bool) (r : List Text) :
+    readQual (f + 1) { audit := a, deny := d } (S "owner" :: r) = readQual f { audit := a, deny := d, owner := true } r := by
+  rw [readQual]; cases a <;> cases d <;> simp [S]
+
+theorem readQual_fileWords (audit deny owner : Bool) (p : Text) (rest : List Text) (hp : PathHead p) :
+    readQual 5 {} (fileWords audit deny owner ++ p :: rest) =
+      some ({ audit := audit, deny := deny, owner := owner }, p :: rest) := by
+  cases audit <;> cases deny <;> cases owner <;>
+    simp only [fileWords, qualWords, if_true, if_false, Bool.false_eq_true, List.nil_append, List.cons_append,
+      List.append_nil, readQual_audit, readQual_deny, readQual_owner, readQual_stop _ _ _ hp]
+
+/-- **The reference reader on a printed file rule** — any qualifier, with or without `owner`, ANY path
+word (starts with `/` or `@`, no blank, quote, parenthesis or `#`, accepted as a path token) and ANY
+non-empty permission string without those characters: the reader finds the path exactly as the rule
+states it, and reads the permission string the printer wrote. -/
+theorem read_file (T : Tables) (audit deny owner : Bool) (p : Text) (acc : List Text)
+    (hp : PathHead p) (hps : SimpleW p ∧ '#' ∉ p) (hpt : isPathTok p = true)
+    (hm : SimpleW acc.flatten ∧ '#' ∉ acc.flatten) :
+    read T (renderRule (fileRule audit deny owner p acc) (padOf [])) =
+      (readMode T acc.flatten).map (fun a =>
+        mkR "file" { audit := audit, deny := deny, owner := owner } [.b owner, .s p, .l a, .s []]) := by
+  rw [render_file]
+  have hws : ∀ w ∈ fileWords audit deny owner ++ [p, acc.flatten], SimpleW w ∧ '#' ∉ w := by
+    intro w hw
+    rw [List.mem_append] at hw
+    rcases hw with hw | hw
+    · cases audit <;> cases deny <;> cases owner <;> simp [fileWords, qualWords] at hw
+      all_goals (first | (rcases hw with rfl | rfl | rfl) | (rcases hw with rfl | rfl) | subst hw) <;>
+        exact ⟨⟨by decide, by decide⟩, by decide⟩
+    · simp only [List.mem_cons, List.not_mem_nil, or_false] at hw
+      rcases hw with rfl | rfl
+      · exact hps
+      · exact hm
+  have hne : fileWords audit deny owner ++ [p, acc.flatten] ≠ [] := by simp
+  have hnh : '#' ∉ joinB (fileWords audit deny owner ++ [p, acc.flatten]) ++ [','] := by
+    generalize fileWords audit deny owner ++ [p, acc.flatten] = ws at hws
+    intro hmem
+    rw [List.mem_append] at hmem
+    rcases hmem with hmem | hmem
+    · induction ws with
+      | nil => simp [joinB] at hmem
+      | cons a l ih =>
+        cases l with
+        | nil => exact (hws a (by simp)).2 (by simpa [joinB] using hmem)
+        | cons b l' =>
+          simp only [joinB, List.mem_append, List.mem_cons] at hmem
+          rcases hmem with h | h | h
+          · exact (hws a (by simp)).2 h
+          · cases h
+          · exact ih (fun w hw => hws w (by simp [hw])) h
+    · simp at hmem
+  unfold read
+  simp only [stripComment_nohash _ hnh, trimR_comma, List.getLast?_append, List.getLast?_singleton, Option.some_or,
+    List.dropLast_concat]
+  rw [words_joinB' _ hne (fun w hw => (hws w hw).1)]
+  simp only [readQual_fileWords audit deny owner p [acc.flatten] hp, readBody_file T _ p _ hp hpt]
+
+end Ref
